@@ -93,15 +93,16 @@ func (s scope) clone() scope {
 
 // Gen generates templates over a binding environment.
 type Gen struct {
-	r      *Rng
-	feat   map[string]bool
-	inc    []string // include targets (relative names); empty = no include
-	incVar []string // names of variables bound to include target names
-	budget int
-	loop   int
-	nvar   int
-	used   map[string]int // constructs used (tag/filter coverage)
-	MapEmphasis bool      // C02: prefer maps as iteration / filter inputs
+	r           *Rng
+	feat        map[string]bool
+	inc         []string // include targets (relative names); empty = no include
+	incVar      []string // names of variables bound to include target names
+	budget      int
+	loop        int
+	nvar        int
+	used        map[string]int // constructs used (tag/filter coverage)
+	MapEmphasis bool           // C02: prefer maps as iteration / filter inputs
+	NoCustom    bool           // only standard tags and filters
 }
 
 var allFeatures = []string{"trim", "raw", "comment", "tablerow", "cycle", "capture", "case", "custom", "errors", "filters", "assign", "breaks", "unless", "loopmods", "nest"}
@@ -251,6 +252,9 @@ func (g *Gen) chain(base string, fs []filt, sc scope, max int) string {
 	}
 	for i, n := 0, g.r.Intn(max+1); i < n; i++ {
 		f := pick(g.r, fs)
+		if g.NoCustom && f.name == "hx" {
+			continue
+		}
 		g.use("filter:" + f.name)
 		base += " | " + f.name + f.args(g, sc)
 	}
@@ -421,23 +425,23 @@ func (g *Gen) node(sc *scope, depth int) *TNode {
 		return 0
 	}
 	w := []int{
-		8,                                    // 0 text
-		8,                                    // 1 obj
-		b(deep, 3),                           // 2 if
-		b(deep && g.feat["unless"], 1),       // 3 unless
-		b(deep && g.feat["case"], 1),         // 4 case
-		b(deep, 4),                           // 5 for
-		b(deep && g.feat["tablerow"], 2),     // 6 tablerow
-		b(g.feat["assign"], 2),               // 7 assign
-		b(deep && g.feat["capture"], 1),      // 8 capture
-		b(g.loop > 0 && g.feat["cycle"], 4),  // 9 cycle
-		b(g.loop > 0 && g.feat["breaks"], 1), // 10 break/continue
-		b(g.feat["comment"], 1),              // 11 comment
-		b(g.feat["raw"], 1),                  // 12 raw
-		b(len(g.inc) > 0, 3),                 // 13 include
-		b(g.feat["custom"], 1),               // 14 echo
-		b(deep && g.feat["custom"], 1),       // 15 wrap
-		b(g.feat["errors"], 1),               // 16 error construct
+		8,                                     // 0 text
+		8,                                     // 1 obj
+		b(deep, 3),                            // 2 if
+		b(deep && g.feat["unless"], 1),        // 3 unless
+		b(deep && g.feat["case"], 1),          // 4 case
+		b(deep, 4),                            // 5 for
+		b(deep && g.feat["tablerow"], 2),      // 6 tablerow
+		b(g.feat["assign"], 2),                // 7 assign
+		b(deep && g.feat["capture"], 1),       // 8 capture
+		b(g.loop > 0 && g.feat["cycle"], 4),   // 9 cycle
+		b(g.loop > 0 && g.feat["breaks"], 1),  // 10 break/continue
+		b(g.feat["comment"], 1),               // 11 comment
+		b(g.feat["raw"], 1),                   // 12 raw
+		b(len(g.inc) > 0, 3),                  // 13 include
+		b(g.feat["custom"] && !g.NoCustom, 1), // 14 echo
+		b(deep && g.feat["custom"] && !g.NoCustom, 1), // 15 wrap
+		b(g.feat["errors"], 1),                        // 16 error construct
 	}
 	switch g.r.weighted(w) {
 	case 0:
@@ -579,6 +583,9 @@ func (g *Gen) fixErrors(ns []*TNode) {
 		}
 		if n.S == "" && n.K == "tag" {
 			n.S = pick(g.r, errTags)
+			if g.NoCustom && strings.HasPrefix(n.S, "echo") {
+				n.S = "include 5"
+			}
 		}
 		g.fixErrors(n.C)
 		for _, cl := range n.Cl {
